@@ -126,8 +126,8 @@ theorem slash_then_comment_is_one_comment :
 example : LexC.GappedOK
     [(.ident ['a'], ['a'], [.white '\t', .comment ['x'] ['\r', '\n'], .white '\u00a0']),
      (.p ['+'], ['+'], [.white '\u3000']), (.ident ['b'], ['b'], [])] := by
-  have ha : LexC.NameOK ['a'] := ⟨'a', [], rfl, by decide, by decide, (by intro _ a r e; cases e), by decide⟩
-  have hb : LexC.NameOK ['b'] := ⟨'b', [], rfl, by decide, by decide, (by intro _ a r e; cases e), by decide⟩
+  have ha : LexC.NameOK ['a'] := ⟨'a', [], rfl, by decide, by decide, LexC.NumFree.old (by intro _ a r e; cases e), by decide⟩
+  have hb : LexC.NameOK ['b'] := ⟨'b', [], rfl, by decide, by decide, LexC.NumFree.old (by intro _ a r e; cases e), by decide⟩
   refine ⟨.ident _ ha, ?_, ?_, by simp, .p1 '+' (by decide), ?_, ?_, by simp, .ident _ hb, by simp, ?_, by simp, trivial⟩
   · intro p hp
     simp only [List.mem_cons, List.not_mem_nil, or_false] at hp
